@@ -55,10 +55,29 @@ def dates_for(b):
     if common:
         import pandas as pd
         for k, t in enumerate(pd.date_range(max(starts), min(ends), freq="h")): hourly[f"hour{k}"] = t.to_pydatetime()
-    return {**hourly, "first": lo.to_pydatetime(), "interior": inner.to_pydatetime() if common else None,
-            "last-common": min(ends).to_pydatetime() if common else None,
-            "before": (lo - timedelta(days=3)).to_pydatetime(), "after": (hi + timedelta(days=400)).to_pydatetime(),
-            "naive": lo.to_pydatetime().replace(tzinfo=None)}
+    d = {**hourly, "first": lo.to_pydatetime(), "interior": inner.to_pydatetime() if common else None,
+         "last-common": min(ends).to_pydatetime() if common else None,
+         "before": (lo - timedelta(days=3)).to_pydatetime(), "after": (hi + timedelta(days=400)).to_pydatetime(),
+         "naive": lo.to_pydatetime().replace(tzinfo=None)}
+    # just outside the modelled period, on either side (1 .. 7 hours: less than any pair of zone offsets of the topologies differ by)
+    # "modelled period" is read generously: the span of every hourly series of the computed model (requests started in the last
+    # hour of a usage pattern spill over the following hours), so a date is only called outside when nothing at all is modelled there
+    glo, ghi = lo, hi
+    for o in H.all_objects(b.system):
+        o = getattr(o, "_value", o)
+        for a in o.calculated_attributes:
+            v = getattr(o, a, None)
+            for x in (list(v.values()) if isinstance(v, dict) else [v]):
+                if isinstance(x, H.ExplainableHourlyQuantities) and x.value.index.tz is not None and len(x.value.index):
+                    glo, ghi = min(glo, x.value.index.min()), max(ghi, x.value.index.max())
+    for k in (1, 2, 5, 7):
+        d[f"before-{k}h"] = (glo - timedelta(hours=k)).to_pydatetime(); d[f"after-{k}h"] = (ghi + timedelta(hours=k)).to_pydatetime()
+    # the same instants written in another zone than UTC (an aware datetime denotes an instant, whatever its zone)
+    for base in ("first", "interior"):
+        if d.get(base) is not None:
+            for zn, z in (("kathmandu", "Asia/Kathmandu"), ("paris", "Europe/Paris"), ("losangeles", "America/Los_Angeles")):
+                d[f"{base}@{zn}"] = d[base].astimezone(pytz.timezone(z))
+    return d
 
 
 def _c05_case(args):
@@ -116,7 +135,8 @@ def run_c05(tier, seed, procs=16):
         b = None
         names = list(change_lists(None, spec).keys())
         for cname in names:
-            dnames = ("first", "interior", "last-common", "before", "after", "naive")
+            dnames = ("first", "interior", "last-common", "before", "after", "naive", "before-1h", "after-1h", "before-5h", "after-5h", "first@kathmandu", "interior@paris")
+            if tier == "thorough": dnames += ("before-2h", "after-2h", "before-7h", "after-7h", "first@paris", "first@losangeles", "interior@kathmandu", "interior@losangeles")
             if tname.startswith("dst_"): dnames += tuple(f"hour{k}" for k in range(1, 9))
             for dname in dnames:
                 togs = ("", "SR", "SRSR") if dname in ("first", "interior") else ("",)
@@ -154,7 +174,7 @@ def _c06_case(args):
         mk, sedit = change_lists(b, spec)[cname]
         date = dates_for(b).get(dname)
         if date is None: out["status"] = "skip"; return out
-        if dname in ("before", "after", "naive"):
+        if dname in ("before", "after", "naive") or dname.startswith(("before-", "after-")):
             try:
                 ModelingUpdate(mk(b), date); out["status"] = "bad-date-accepted"
             except ValueError: pass
@@ -180,7 +200,7 @@ def _c06_case(args):
                     if imin.tzinfo is None: continue
                     if imin < pd.Timestamp(date):
                         out["status"] = "simulated-hour-before-date"; out["diff"] = [f"{v.label}: {imin} < {date}"]; return out
-        if dname == "first":
+        if dname.split("@")[0] == "first":
             sim.set_updated_values()
             live = H.snapshot(b.system)
             sim.reset_values()
@@ -200,7 +220,8 @@ def run_c06(tier, seed, procs=16):
     for tname in tnames:
         spec = T[tname]
         for cname in change_lists(None, spec):
-            dnames = ("first", "interior", "last-common", "before", "after", "naive")
+            dnames = ("first", "interior", "last-common", "before", "after", "naive", "before-1h", "after-1h", "before-5h", "after-5h", "first@kathmandu", "interior@paris")
+            if tier == "thorough": dnames += ("before-2h", "after-2h", "before-7h", "after-7h", "first@paris", "first@losangeles", "interior@kathmandu", "interior@losangeles")
             if tname.startswith("dst_"): dnames += tuple(f"hour{k}" for k in range(1, 9))
             for dname in dnames:
                 items.append((tname, spec, cname, dname))
@@ -214,10 +235,12 @@ def run_c06(tier, seed, procs=16):
         if r["status"] == "ok": continue
         sig = f"C06|{r['case']}|{r['status']}|{','.join(r['diff'])[:200]}"
         if r["status"] == "D3": sig = "D3"
-        elif r["shared"] and r["status"] in ("first-hour-simulation-differs-from-real-update", "simulation-raises"): sig = "D1"
+        # shared job: the per-usage-pattern dict entries share one id, the ancestors to filter are de-duplicated by id, so one pattern's
+        # series is left unfiltered (replayed natively: 'Hourly job0 occurrences in up0' missing from hourly_quantities_to_filter)
+        elif r["shared"] and r["status"] in ("first-hour-simulation-differs-from-real-update", "simulation-raises", "simulated-hour-before-date"): sig = "D1"
         viol.append({"signature": sig, "what": f"C06 {r['case']}: {r['status']} {r['diff'][:6]}", "input": {"case": r["case"]}})
     return {"evaluations": len(res), "distinct_nontrivial": len(nontrivial),
             "rule": "one case = (topology, change list, simulation date); first hour: model with simulated values switched on vs a system built with the changes really applied (every calculated attribute, rel 1e-9); "
                     "any inner date: no simulated hour before the date, baseline/simulated twins paired both ways; dates before/after the period and naive dates must raise ValueError",
             "samples": samples, "violations": viol, "exhaustive": False,
-            "bound": f"{len(tnames)} topologies x up to 6 change lists x 6 dates"}
+            "bound": f"{len(tnames)} topologies x up to 6 change lists x 12-20 dates (first / interior / last common hour, far and 1-7 h outside the period on both sides, naive, the same instants written in non-UTC zones)"}
